@@ -9,6 +9,7 @@ CONSTANTS
   Kinds = {"pa", "qo", "qd", "qa"}
   NatKinds = {"sd", "qd"}
   Prune = TRUE
+  Plan = "free"
 INVARIANTS TypeOK CoroMode RunToSuspension QueueFIFO ObservedOrder ResumeOncePerReadying NoReentrancy RoundRobin FullDrain AllDoneAtEnd
 PROPERTY FIFOStep
 CHECK_DEADLOCK FALSE
